@@ -15,7 +15,7 @@ from ..fcase import Q, ANY_ERR, OneOf
 
 ID = 'C12'
 LEVEL = 'exploration'
-BUDGET_S = {'quick': 150, 'thorough': 1500}
+BUDGET_S = {'quick': 300, 'thorough': 1500}
 RELATION = 'select-then-fold'
 RULE = ('one workbook per case: generated criteria columns + target column and up to 8 conditional-aggregate formulas; '
         'non-trivial = at least one position is selected and one rejected and the criterion is not a plain equality on an '
